@@ -204,14 +204,16 @@ Example get_entries_example :
 Proof. split; [apply consecb_ok; vm_compute; reflexivity|]. vm_compute. repeat split; discriminate. Qed.
 
 (* C04_applied_monotone: a received complete snapshot that is behind the node's position (index 2;
-   node 1 of g3 has applied 3) is not installed: applied stays, a fresh compaction is requested *)
+   node 1 of g3 has applied 3) is not installed and not stored either: applied, log and the serializer's
+   file stay (since the serializer drops such a file, no fresh compaction has to be requested) *)
 Definition old_snap : snapshot :=
   mkSnap [] 0 (mkEntry (noop_cmd 10) 2 1) (mkEntry (noop_cmd 10) 1 0) [1; 2; 3] 50.
 Example behind_snapshot_not_installed :
   let n := (node_of 1 g3) in
   let n' := nd (on_message (mk_env xc 300 0 DEFAULT_BUDGET [] 0) 2
                            (AESnap 1 3 (SData (Good old_snap) 0 50 true true)) n) in
-  applied n = 3 /\ applied n' = 3 /\ log n' = log n /\ force_compact n' = true.
+  applied n = 3 /\ applied n' = 3 /\ log n' = log n /\ force_compact n' = force_compact n /\
+  stored (sr n') = stored (sr n) /\ incoming (sr n') = None.
 Proof. vm_compute. repeat split; reflexivity. Qed.
 
 (* the condition on the first tick (restart path) cannot be dropped: a node that has not ticked yet,
